@@ -168,7 +168,7 @@ pub fn suite_c01(ctx: &mut Ctx) {
         }
         // lone-low-bit products: a single sticky bit decides the rounding of the product
         let nl = ctx.q(1500, 30_000);
-        let (lp, _) = lone_bit_cases(ctx, ty, nl);
+        let (lp, _) = lone_bit_cases(ctx, ty.n, ty.es, nl);
         for (i, &(a, b)) in lp.iter().enumerate() {
             let (a, b) = if i % 2 == 0 { (a, b) } else { (gen::neg(ty.n, a), b) };
             ctx.call(ty, "mul", ["m", "o", "a"][i % 3], &[a, b]);
@@ -251,7 +251,7 @@ pub fn suite_c05(ctx: &mut Ctx) {
         // lone-low-bit products + an addend that puts the rounding tie on them: the product's last bit
         // is the only thing that tells the sum from an exact tie
         let nl = ctx.q(3000, 60_000);
-        let (_, lt) = lone_bit_cases(ctx, ty, nl);
+        let (_, lt) = lone_bit_cases(ctx, ty.n, ty.es, nl);
         for (i, &(a, b, c)) in lt.iter().enumerate() {
             let (a, c) = if i % 2 == 0 { (a, c) } else { (gen::neg(ty.n, a), gen::neg(ty.n, c)) };
             match i % 3 {
@@ -759,9 +759,7 @@ pub fn suite_c17(ctx: &mut Ctx) {
 ///  * for mul: scales chosen so that the result's last fraction bit is just above the zero run;
 ///  * for the fused family: an addend c of the same sign, d binades above the product, whose ulp
 ///    puts the tie exactly on the product's lowest set bit of the leading part.
-pub fn lone_bit_cases(ctx: &mut Ctx, ty: &Ty, count: usize) -> (Vec<(u64, u64)>, Vec<(u64, u64, u64)>) {
-    let n = ty.n;
-    let es = ty.es;
+pub fn lone_bit_cases(ctx: &mut Ctx, n: u32, es: u32, count: usize) -> (Vec<(u64, u64)>, Vec<(u64, u64, u64)>) {
     let f = gen::frac_bits(n, es, 0); // fraction bits of values in [1, 2)
     let maxs = ((n - 2) << es) as i32;
     let mut pairs = Vec::new();
@@ -769,8 +767,14 @@ pub fn lone_bit_cases(ctx: &mut Ctx, ty: &Ty, count: usize) -> (Vec<(u64, u64)>,
     if f < 3 {
         return (pairs, triples);
     }
-    let mut tries = 0;
-    while (pairs.len() < count || triples.len() < count) && tries < count * 400 {
+    // one bucket per distance d between addend and product (plain and with carry), filled evenly: large
+    // distances need many trailing zeros in the leading part and are rare among random candidates
+    let nb = (f as usize + 4) * 2;
+    let quota = (count / nb).max(4);
+    let mut buckets: Vec<Vec<(u64, u64, u64)>> = vec![Vec::new(); nb];
+    let mut tries = 0usize;
+    let max_tries = count * 4000;
+    while tries < max_tries && (pairs.len() < count || buckets.iter().any(|b| b.len() < quota)) {
         tries += 1;
         let (u, v, w, _j) = gen::lone_bit_pair(f, &mut ctx.rng);
         let carry = (w >> f) as i32; // 1 + w/2^f >= 2 ?  (w < 2^(f+1))
@@ -779,14 +783,12 @@ pub fn lone_bit_cases(ctx: &mut Ctx, ty: &Ty, count: usize) -> (Vec<(u64, u64)>,
             continue;
         }
         let z = wl.trailing_zeros();
-        // operands at scales sa, sb whose regimes still leave all f fraction bits
-        let k0max = 0i32; // scale 0..(2^es - 1) keeps regime k = 0
-        let sa = ctx.rng.gen_range(0..(1 << es)) as i32 + k0max;
+        let sa = ctx.rng.gen_range(0..(1 << es)) as i32;
         let sb = ctx.rng.gen_range(0..(1 << es)) as i32;
         let a = gen::from_scale(n, es, sa, u << (64 - f));
         let b = gen::from_scale(n, es, sb, v << (64 - f));
         let sp = sa + sb + carry; // scale of the exact product
-        // the lowest set bit of the leading part has weight 2^(sp - (f - z) + carry)
+        // the lowest set bit of the leading part has weight 2^low_w
         let low_w = sp - carry - (f as i32 - z as i32);
         // --- mul: wanted: result ulp = 2^(low_w + 1), i.e. nf(sp) = sp - low_w - 1
         let want_nf = sp - low_w - 1;
@@ -800,25 +802,29 @@ pub fn lone_bit_cases(ctx: &mut Ctx, ty: &Ty, count: usize) -> (Vec<(u64, u64)>,
                 break;
             }
             let nf = gen::frac_bits(n, es, s.div_euclid(1 << es)) as i32;
-            if s - nf == low_w + 1 && triples.len() < count {
+            let bi = (d as usize - 1) * 2;
+            if s - nf == low_w + 1 && buckets[bi].len() < quota {
                 let c = gen::from_scale(n, es, s, ctx.rng.gen::<u64>());
-                triples.push((a, b, c));
+                buckets[bi].push((a, b, c));
                 break;
             }
             // the same with a carry: c just below 2^(s+1) so that c + a*b lands in the next binade,
             // whose ulp must then sit on the product's lowest leading bit
-            if s + 1 <= maxs && triples.len() < count {
+            if s + 1 <= maxs && buckets[bi + 1].len() < quota {
                 let nf1 = gen::frac_bits(n, es, (s + 1).div_euclid(1 << es)) as i32;
                 if s + 1 - nf1 == low_w + 1 && d <= nf {
                     // c = 2^(s+1) - j new-ulps (a multiple of the new ulp, so that c + leading part is a tie)
                     let top = gen::from_scale(n, es, s + 1, 0);
                     let step = 1u64 << (1 + nf - nf1).max(0);
                     let c = top.wrapping_sub(step * ctx.rng.gen_range(1..3u64)) & gen::mask(n - 1);
-                    triples.push((a, b, c));
+                    buckets[bi + 1].push((a, b, c));
                     break;
                 }
             }
         }
+    }
+    for b in buckets {
+        triples.extend(b);
     }
     (pairs, triples)
 }
